@@ -44,8 +44,13 @@ def _paths(stmts):
 
 
 def _resolve(e, env, depth=0):
-    while isinstance(e, ast.Name) and e.id in env and depth < 6:
-        e = env[e.id]
+    while depth < 6:
+        if isinstance(e, ast.Name) and e.id in env:
+            e = env[e.id]
+        elif isinstance(e, ast.Attribute) and norm(e) in env and norm(e) not in ("self.cores", "self.bias"):
+            e = env[norm(e)]       # self.size_out = size_out earlier on the path
+        else:
+            break
         depth += 1
     return e
 
